@@ -26,8 +26,16 @@ def class_source(name, feats, prev):
         L.append("\tother: %s?" % prev)
     if "me" in feats:
         L.append("\tselfref: Self?")
+    if "flag" in feats:
+        L.append("\tflag: bool")
+    if "big" in feats:
+        L.append("\tbig: bigint")
     L.append("\tconstructor(self, n: int) {")
     L.append("\t\tself.n = n")
+    if "flag" in feats:
+        L.append("\t\tself.flag = false")
+    if "big" in feats:
+        L.append("\t\tself.big = B1")
     if "me" in feats:
         L.append("\t\tself.selfref = self")
     if "s" in feats:
@@ -58,6 +66,14 @@ def class_source(name, feats, prev):
     if "o" in feats:
         cp += "\t\tself.o = x.o\n"
     L.append("\tfn copyfrom(self, x: Self) {\n%s\t}" % cp)
+    if "flag" in feats:
+        L.append("\tfn toggle(self) -> bool {\n\t\tself.flag = !self.flag\n\t\treturn self.flag\n\t}")
+        L.append("\tfn negn(self) -> int {\n\t\tif self.flag {\n\t\t\treturn -self.n\n\t\t}\n\t\treturn self.n\n\t}")
+    if "flag" in feats:
+        L.append("\tfn both(self) -> bool {\n\t\treturn self.flag && self.n > 3 || !self.flag && self.n < 2\n\t}")
+        L.append("\tfn drain(self) -> int {\n\t\tassert self.flag || !self.flag\n\t\tc = 0\n\t\twhile self.flag {\n\t\t\tself.flag = false\n\t\t\tc = c + 1\n\t\t}\n\t\treturn c\n\t}")
+    if "big" in feats:
+        L.append("\tfn grow(self) -> bigint {\n\t\tself.big = self.big * B3 + self.n\n\t\treturn self.big\n\t}")
     if "s" in feats:
         L.append("\tfn sets(self, t: str) {\n\t\tself.s = t\n\t}")
         L.append("\tfn cat(self) -> str {\n\t\treturn self.s + self.n\n\t}")
@@ -87,6 +103,8 @@ class HObj:
         self.o = None
         self.peer = None
         self.other = None
+        self.flag = False
+        self.big = 1
 
 
 class Interp:
@@ -112,6 +130,7 @@ class Interp:
         self.em.code("r0 = 0\nr1 = \"\"")
         self.r0, self.r1 = 0, ""
         self.helpers = set()
+        self.regs = {}
         self.vars = {}      # name -> HObj
         self.order = []
         self.lists = {}     # list var name -> (cls, [HObj])
@@ -285,6 +304,34 @@ class Interp:
                 if "xs" in f:
                     a.xs.append(op["v"])
                 em.out(str(a.n))
+            elif m == "toggle":
+                if "flag" not in f:
+                    return False
+                em.code("print %s.toggle()" % an)
+                a.flag = not a.flag
+                em.out("true" if a.flag else "false")
+            elif m == "negn":
+                if "flag" not in f:
+                    return False
+                em.code("print %s.negn()" % an)
+                em.out(str(-a.n if a.flag else a.n))
+            elif m == "both":
+                if "flag" not in f:
+                    return False
+                em.code("print %s.both()" % an)
+                em.out("true" if ((a.flag and a.n > 3) or ((not a.flag) and a.n < 2)) else "false")
+            elif m == "drain":
+                if "flag" not in f:
+                    return False
+                em.code("print %s.drain()" % an)
+                em.out("1" if a.flag else "0")
+                a.flag = False
+            elif m == "grow":
+                if "big" not in f or a.big > 10 ** 30:
+                    return False
+                em.code("print %s.grow()" % an)
+                a.big = a.big * 3 + a.n
+                em.out(str(a.big))
             elif m == "copyfrom":
                 if b is None or b.cls != a.cls:
                     return False
@@ -389,6 +436,22 @@ class Interp:
             em.code("%s: [%s...] = [%s]" % (ln, a.cls, ", ".join(names)))
             self.lists[ln] = (a.cls, [self.vars[x] for x in names])
             return True
+        if k == "regput":
+            # objects stored in a map keyed by string: the map shares them
+            rn = "reg_" + a.cls
+            if rn not in self.regs:
+                self.regs[rn] = {}
+                em.code("%s = map[str, %s]" % (rn, a.cls))
+            em.code("%s[%s] = %s" % (rn, lit(op["k"]), an))
+            self.regs[rn][op["k"]] = a
+            return True
+        if k == "regget":
+            rn = "reg_" + a.cls
+            if rn not in self.regs or op["k"] not in self.regs[rn]:
+                return False
+            name = self.fresh_var(self.regs[rn][op["k"]])
+            em.code("%s = get %s[%s]" % (name, rn, lit(op["k"])))
+            return True
         if k == "lpush":
             l = self.lists.get(op.get("l"))
             if l is None or l[0] != a.cls:
@@ -409,7 +472,7 @@ class Interp:
 
 
 METHODS = ["getn", "setn", "resetn", "add", "twice", "me", "fresh", "chain", "swapn", "sets", "cat", "size", "resize", "seto",
-           "clearo", "link", "peern", "bumppeer", "getpeer", "attach", "othern", "copyfrom", "copyfrom", "getme"]
+           "clearo", "link", "peern", "bumppeer", "getpeer", "attach", "othern", "copyfrom", "copyfrom", "getme", "toggle", "toggle", "negn", "grow", "both", "drain"]
 
 
 def gen_op(rng, it):
@@ -421,7 +484,7 @@ def gen_op(rng, it):
     a = rng.choice(names)
     same = [x for x in names if it.vars[x].cls == it.vars[a].cls]
     kind = rng.weighted([("call", 10), ("alias", 2), ("rebind", 1), ("take", 1), ("setfield", 2), ("opfield", 2), ("sfield", 1),
-                         ("xsalias", 1), ("is", 2), ("mklist", 1), ("lpush", 1), ("lfetch", 2), ("readinto", 2), ("rebindpeer", 1)])
+                         ("xsalias", 1), ("is", 2), ("mklist", 1), ("lpush", 1), ("lfetch", 2), ("readinto", 2), ("rebindpeer", 1), ("regput", 1), ("regget", 2)])
     op = {"op": kind, "a": a, "v": rng.range(0, 9)}
     if kind == "call":
         op["m"] = rng.choice(METHODS)
@@ -433,6 +496,8 @@ def gen_op(rng, it):
         op["b"] = rng.choice(same)
     elif kind == "readinto":
         op["which"] = rng.choice(["n", "n", "s"])
+    elif kind in ("regput", "regget"):
+        op["k"] = rng.choice(["a", "b c", "k"])
     elif kind == "opfield":
         op["sym"] = rng.choice(["+", "+", "-", "*", "/", "%"])
         op["v"] = rng.range(0, 4) if op["sym"] in ("+", "-") else (rng.range(0, 2) if op["sym"] == "*" else rng.range(1, 4))
@@ -454,7 +519,7 @@ def gen_classes(rng):
     names = rng.sample(CLASS_NAMES, n)
     out = []
     for i, name in enumerate(names):
-        feats = [x for x in ("s", "xs", "o", "peer", "other", "me") if rng.chance(3, 5)]
+        feats = [x for x in ("s", "xs", "o", "peer", "other", "me") if rng.chance(3, 5)] + [x for x in ("flag", "big") if rng.chance(1, 3)]
         if i == 0:
             feats = [x for x in feats if x != "other"]
         out.append([name, feats])
